@@ -482,12 +482,12 @@ func (g *GEM) forEachEmittedCall(f func(gf *GFunc, sk *Skeleton, call *ast.CallE
 
 // allowed emitted callees that receive the output buffer; their bodies are covered by runtime rules.
 var bufferTakers = map[string]string{
-	"templ.RenderAttributes":      "C01.R1 covers its body",
-	"templ.RenderCSSItems":        "C01.R1/C05 cover its body",
-	"templ.RenderScriptItems":     "C01.R1/C03 cover its body",
-	"templruntime.WriteString":    "literal text (G-LIT)",
-	"templruntime.ReleaseBuffer":  "buffer release",
-	"templruntime.GetBuffer":      "buffer acquisition",
+	"templ.RenderAttributes":     "C01.R1 covers its body",
+	"templ.RenderCSSItems":       "C01.R1/C05 cover its body",
+	"templ.RenderScriptItems":    "C01.R1/C03 cover its body",
+	"templruntime.WriteString":   "literal text (G-LIT)",
+	"templruntime.ReleaseBuffer": "buffer release",
+	"templruntime.GetBuffer":     "buffer acquisition",
 }
 
 // gSink checks every emitted write to the output buffer.
